@@ -411,6 +411,76 @@ def dash_work(fallback):
     return part
 
 
+def unlistable_subdir(item):
+    """a sub-directory of the tree cannot be listed (the account may not read it: 550): a recursive listing, a download
+    or a removal of the tree either delivers the whole tree or raises - it never returns a part of it as if that were all"""
+    fallback, op = item
+    part = report.Partial()
+
+    def users(a, base):
+        return [a.User(base_path=base, permissions=[a.Permission("/"), a.Permission("/t/b", readable=False)])]
+
+    rig = Rig(tree={"t": {"a": {"1.txt": b"1"}, "b": {"deep": {"2.txt": b"2"}, "3.txt": b"3"}, "c": {"4.txt": b"4"}}},
+              users=users, server_kwargs={"block_size": 7})
+    w = rig.world
+    a = w.aioftp
+    if fallback:
+        rig.server.commands_mapping.pop("mlst")
+        rig.server.commands_mapping.pop("mlsd")
+    problems = []
+    full = {"t/a", "t/a/1.txt", "t/b", "t/b/deep", "t/b/deep/2.txt", "t/b/3.txt", "t/c", "t/c/4.txt"}
+    try:
+        client = a.Client(path_io_factory=a.MemoryPathIO)
+        out = {}
+
+        async def main():
+            await client.connect("127.0.0.1", 2121)
+            await client.login()
+            try:
+                if op == "list":
+                    out["got"] = sorted(str(p_) for p_, _ in await client.list("t", recursive=True))
+                elif op == "list-iter":
+                    got = []
+                    async for p_, _ in client.list("t", recursive=True):
+                        got.append(str(p_))
+                    out["got"] = sorted(got)
+                else:
+                    await client.download("t", "/dl", write_into=True)
+                    out["got"] = sorted(k for k in snapshot_client(client.path_io))
+            except a.StatusCodeError as exc:
+                out["raised"] = [str(c) for c in exc.received_codes]
+            try:
+                await client.quit()
+            except Exception:  # noqa
+                pass
+
+        try:
+            w.run(main())
+        except Hang:
+            problems.append({"kind": "hang"})
+        except Exception as exc:  # noqa
+            out["raised"] = [repr(exc)[:120]]
+        if not problems and "raised" not in out:
+            got = out.get("got") or []
+            if op.startswith("list") and set(got) != full:
+                problems.append({"kind": "partial-tree-returned-as-if-complete", "got": got, "missing": sorted(full - set(got))})
+            if op == "download" and not any("2.txt" in g for g in got):
+                problems.append({"kind": "partial-tree-returned-as-if-complete", "got": got})
+        part.evaluations += 1
+        part.traces += 1
+        part.transitions += w.net.n_events
+        k = report.fp(["unlistable", fallback, op])
+        part.states.add(k)
+        part.nontrivial.add(k)
+        part.outcomes[report.fp([op, "raised" in out])] += 1
+        for p in problems[:1]:
+            part.violation({"kind": p["kind"], "op": op + " over an unlistable sub-directory", "fallback": fallback},
+                           {"problem": p}, replay={"unlistable": [fallback, op]})
+    finally:
+        rig.close()
+    return part
+
+
 def linked_sources(item):
     """local sources on a real file system whose last component is a symbolic link (to a directory, to a file): the
     remote tree is named after the source as the caller wrote it - exactly as for a plain directory or file"""
@@ -614,7 +684,8 @@ def run(tier, seed, t0):
         k = seed % len(items)
         items = items[k:] + items[:k]
     part = report.merge_all(report.pmap(work, items) + [dash_work(False), dash_work(True)]
-                            + report.pmap(linked_sources, [(fb, wi) for fb in (False, True) for wi in (False, True)]))
+                            + report.pmap(linked_sources, [(fb, wi) for fb in (False, True) for wi in (False, True)])
+                            + report.pmap(unlistable_subdir, [(fb, op) for fb in (False, True) for op in ("list", "list-iter", "download")]))
     bounds = {"dash_names": "list / download / remove of a directory named -x by its bare relative name (MLSD and LIST-only)",
               "sources": nsrc, "max_nodes": 4 if tier == "quick" else 5, "names": ["a", "b"], "separator_names": ["old; new", "x; Type=dir; y", "a -> b", "Size=1;z", "~", "x y  z"], "near_duplicate_names": ["README / readme", "composed / decomposed café"], "destinations": DESTS, "write_into": [False, True],
               "remote_cwd": ["/", "/w"], "block_sizes": [1, 8192], "servers": ["MLSD", "LIST fallback"], "encodings": ["utf-8", "latin-1 with non-ASCII names (trees <= 3 nodes)"],
@@ -635,6 +706,10 @@ def run(tier, seed, t0):
 
 def replay(path):
     data = json.loads(open(path).read())
+    if "unlistable" in data["replay"]:
+        part = unlistable_subdir(tuple(data["replay"]["unlistable"]))
+        print(json.dumps([v["detail"] for v in part.violations], indent=1, default=repr))
+        return 1 if part.violations else 0
     if "linked" in data["replay"]:
         part = linked_sources(tuple(data["replay"]["linked"]))
         print(json.dumps([v["detail"] for v in part.violations], indent=1, default=repr))
